@@ -11,6 +11,15 @@ from .loader import ClassInfo, FuncInfo
 from .state import Frame, PathEnd, St
 
 
+def is_memoised(fnode) -> bool:
+    for d in getattr(fnode, "decorator_list", []):
+        tgt = d.func if isinstance(d, ast.Call) else d
+        name = ast.unparse(tgt).split(".")[-1]
+        if name in ("lru_cache", "cache", "cached", "memoize", "memoise"):
+            return True
+    return False
+
+
 def has_yield(fnode) -> bool:
     for n in ast.walk(fnode):
         if isinstance(n, (ast.Yield, ast.YieldFrom)):
@@ -155,6 +164,17 @@ class CallMixin:
             self.effect("recursion-cut", site, st, fr, func=fi.qualname)
             return self.generic_call(self.func_node(fi), pos, kw, st, fr, site, "recursion")
         fnode = fi.node
+        memo_key = None
+        if not isinstance(fnode, ast.Lambda) and is_memoised(fnode):
+            # functools.lru_cache / cache: a repeated call with equal arguments returns THE SAME object, which
+            # therefore outlives the call (writes to it are writes to shared state)
+            try:
+                memo_key = (id(fi), tuple(self.g.vn(self.res(a, st)) for a in pos),
+                            tuple(sorted((k, self.g.vn(self.res(v_, st))) for k, v_ in kw.items())))
+            except Exception:
+                memo_key = None
+            if memo_key is not None and memo_key in self._memoised:
+                return self._memoised[memo_key]
         if not isinstance(fnode, ast.Lambda) and has_yield(fnode) and not (
                 fi.qualname in self.analyse_generators and not any(f is fi for (_s, f) in fr.chain)):
             n = self.generic_call(self.func_node(fi), pos, kw, st, fr, site, "generator")
@@ -189,6 +209,13 @@ class CallMixin:
             if fi.qualname in self.watch_calls:
                 self.call_log.append((fi, site, locals_, v, st.pc))
             st.heap, st.cur, st.pc = mst.heap, mst.cur, mst.pc
+            if memo_key is not None:
+                for r_ in [v] + list(self.roots(v)):
+                    if r_.op not in ("Const", "Input"):
+                        if r_.extra is None:
+                            r_.extra = {}
+                        r_.extra.setdefault("global", f"result cached by the memoising decorator of {fi.qualname}")
+                self._memoised[memo_key] = v
             return v
         finally:
             self._cur_fn = saved_fn
@@ -336,6 +363,7 @@ class CallMixin:
                 if k != "**":
                     st.heap[(obj.id, k)] = v
             obj.extra["pydantic"] = True
+            obj.extra["ctor_args"] = (tuple(pos), dict(kw))
             return obj
         init = self.find_method(ci, "__init__")
         if init is not None:
@@ -395,6 +423,9 @@ class CallMixin:
                     return None
                 new = self.dict_set(new, pair.args[0].attr, pair.args[1], site)
             return new
+        if depth == 0 and recv.op == "Dict":
+            # keys not statically known: same representation as {**recv, **arg}
+            return self.mk("Dict", tuple(recv.args) + (arg,), tuple(recv.attr) + (("**",),), site)
         return None
 
     # ------------------------------------------------------------ methods on values
@@ -552,8 +583,11 @@ class CallMixin:
                 lo = self.mk("ListOf", (self.snapshot(r, st),), None, site)
                 lo.extra = {"seq": P[1] if len(P) == 2 else self.mk("Zip", P[1:], None, site)}
                 return lo
-        if q == "builtins.enumerate" and len(P) == 1 and not kw:
-            return self.mk("Enumerate", (P[0],), None, site)
+        if q == "builtins.enumerate" and len(P) in (1, 2) and set(kw) <= {"start"} and not (len(P) == 2 and kw):
+            start = P[1] if len(P) == 2 else kw.get("start")
+            start = self.res(start, st) if start is not None else None
+            if start is None or (start.op == "Const" and type(start.attr) is int):
+                return self.mk("Enumerate", (P[0],), (start.attr if start is not None else 0) or None, site)
         if q == "builtins.range":
             return self.mk("Range", P, None, site)
         if q in ("builtins.tuple", "builtins.list") and len(P) <= 1:
